@@ -11,8 +11,11 @@ import (
 	"fmt"
 	"io"
 	"math/big"
+	"os"
+	"path/filepath"
 	"runtime/debug"
 	"strings"
+	"syscall"
 	"testing"
 	"time"
 
@@ -1180,6 +1183,85 @@ func runChain(sc *Scenario, res *core.Result, logf func(string, ...any)) {
 	res.Bump("oracle.P5_self_include_stops")
 	res.Nontrivial = true
 	res.Class = fmt.Sprintf("chain/nest=%d/short=%d/br=%v", nests[0], sc.ShortRead, sc.ByteReader)
+	if res.Verdict == core.OK {
+		selfIncludeThroughGenerate(sc, res, logf)
+	}
+}
+
+// selfIncludeThroughGenerate: a file that includes itself from inside a
+// $GENERATE, reached through 0..3 ordinary includes. The text a $GENERATE
+// expands to opens its includes through the operating system whatever include
+// file system is configured (DESIGN appendix B), so this tree lives on disk, in
+// a scratch directory under the worker's working directory. Every level
+// returns one record before it nests, so the number of records is the depth
+// reached.
+func selfIncludeThroughGenerate(sc *Scenario, res *core.Result, logf func(string, ...any)) {
+	dir, err := os.MkdirTemp(".", "c07-osgen-")
+	if err != nil {
+		return
+	}
+	defer os.RemoveAll(dir)
+	abs, err := filepath.Abs(dir)
+	if err != nil {
+		return
+	}
+	hops := int(sc.RunSeed % 4)
+	next := func(i int) string {
+		if i < hops {
+			return fmt.Sprintf("%s/hop%d.zone", abs, i)
+		}
+		return abs + "/self.zone"
+	}
+	for i := 0; i < hops; i++ {
+		os.WriteFile(next(i), []byte(fmt.Sprintf("h%d 300 IN A 192.0.2.%d\n$INCLUDE %s\n", i, i, next(i+1))), 0o644)
+	}
+	body := "s 300 IN A 192.0.2.9\n$GENERATE 0-0 $$INCLUDE " + abs + "/self.zone\n"
+	if sc.RunSeed%8 >= 4 {
+		// alternately through the $GENERATE and directly
+		body = "s 300 IN A 192.0.2.9\n$GENERATE 0-0 $$INCLUDE " + abs + "/other.zone\n"
+		os.WriteFile(abs+"/other.zone", []byte("o 300 IN A 192.0.2.8\n$INCLUDE "+abs+"/self.zone\n"), 0o644)
+	}
+	os.WriteFile(abs+"/self.zone", []byte(body), 0o644)
+	// a parser that never stops nesting must run out of descriptors long before it runs out of memory
+	var old syscall.Rlimit
+	if syscall.Getrlimit(syscall.RLIMIT_NOFILE, &old) == nil && old.Cur > 512 {
+		syscall.Setrlimit(syscall.RLIMIT_NOFILE, &syscall.Rlimit{Cur: 512, Max: old.Max})
+		defer syscall.Setrlimit(syscall.RLIMIT_NOFILE, &old)
+	}
+	type result struct {
+		n        int
+		err, pan string
+	}
+	out, ok := guarded(limit, func() (r result) {
+		defer func() {
+			if p := recover(); p != nil {
+				r.pan = fmt.Sprintf("%v\n%s", p, libFrames(string(debug.Stack())))
+			}
+		}()
+		zp := dns.NewZoneParser(strings.NewReader("$INCLUDE "+next(0)+"\n"), "example.org.", abs+"/main.zone")
+		zp.SetIncludeAllowed(true)
+		for _, ok := zp.Next(); ok && r.n < 100000; _, ok = zp.Next() {
+			r.n++
+		}
+		if e := zp.Err(); e != nil {
+			r.err = e.Error()
+		}
+		return r
+	})
+	if !ok {
+		hang(res, "parsing a file that includes itself through $GENERATE")
+		return
+	}
+	logf("self-include through $GENERATE (%d hops): %d records, err class %s", hops, out.n, errClass(out.err))
+	res.Bump("oracle.P5_self_include_through_generate_stops")
+	switch {
+	case out.pan != "":
+		res.Fail("P2", "panic:"+firstFrame(out.pan), "the parser panicked on a file that includes itself through $GENERATE: %s", out.pan)
+	case out.n > 32:
+		res.Fail("P5", "include-depth-through-generate", "a file that includes itself from inside a $GENERATE (reached through %d ordinary include(s)) was followed %d levels deep (%s): nesting does not stop at a fixed depth", hops, out.n, errClass(out.err))
+	case out.err == "":
+		res.Fail("P5", "self-include-accepted", "a file including itself from inside a $GENERATE parsed without error (%d records)", out.n)
+	}
 }
 
 // runSmall: ReadRR and ReadPrivateKey over a faulty reader.
